@@ -4,6 +4,8 @@ LOG=${1:-/tmp/seedcheck.log}; : > $LOG
 cd /verif
 for d in seeded/*/; do
   n=$(basename $d); P=${n%%-*}
+  # a change written for one property may be the business of another property's check (recorded in check_with)
+  [ -f $d/check_with ] && P=$(cat $d/check_with)
   if ! git -C /repo apply --check /verif/$d/patch.diff 2>/dev/null; then echo "$n APPLY-FAIL" >> $LOG; continue; fi
   out=$(./scripts_mutant.sh /verif/$d/patch.diff $P 2>&1 | tail -4)
   ex=$(echo "$out" | grep -o "exit=[0-9]*")
